@@ -30,9 +30,9 @@ MkParts(np, cc, rag, k) ==
 MkIns(ni, np, cc, rag, s) ==
   Tup([i \in 1..ni |-> [upsc |-> (4096 * s + 255 * i + 1) % 65536, parts |-> MkParts(Cnt(np, i + s, rag), cc, rag, i + s)]], ni)
 MkSubs(ns, ni, np, cc, rag) ==
-  Tup([s \in 1..ns |-> [mcc |-> Plmns[s][1], mnc |-> Plmns[s][2], ins |-> MkIns(Cnt(ni, s, rag), np, cc, rag, s)]], ns)
+  Tup([s \in 1..ns |-> [mcc |-> Plmns[((s - 1) % 4) + 1][1], mnc |-> Plmns[((s - 1) % 4) + 1][2], ins |-> MkIns(Cnt(ni, s, rag), np, cc, rag, s)]], ns)
 MkRs(nr, s) == Tup([i \in 1..nr |-> [upsc |-> (4096 * s + i) % 65536, ord |-> i - 1, cause |-> UeCauseUnspecified]], nr)
-MkSrs(ns, nr, rag) == Tup([s \in 1..ns |-> [mcc |-> Plmns[s][1], mnc |-> Plmns[s][2], rs |-> MkRs(Cnt(nr, s, rag), s)]], ns)
+MkSrs(ns, nr, rag) == Tup([s \in 1..ns |-> [mcc |-> Plmns[((s - 1) % 4) + 1][1], mnc |-> Plmns[((s - 1) % 4) + 1][2], rs |-> MkRs(Cnt(nr, s, rag), s)]], ns)
 St(pti, type, iei, subs, srs, cm) == [pti |-> pti, type |-> type, iei |-> iei, subs |-> subs, srs |-> srs, cm |-> cm]
 
 \* ---- the specification's own value of an st (PLMN octets per TS 24.008)
@@ -121,6 +121,12 @@ CmdShapes ==
   \cup {<< "cmd", ns, ni, np, 1, 1 >> : ns \in 1..3, ni \in N03, np \in N03}
   \cup {<< "cmd", 1, 1, 1, 2, 0 >>, << "cmd", 2, 2, 2, 2, 0 >>, << "cmd", 3, 3, 3, 2, 0 >>, << "cmd", 1, 1, 3, 2, 0 >>, << "cmd", 2, 2, 2, 2, 1 >>}
   \cup (IF Thorough THEN {<< "cmd", ns, ni, np, 2, rag >> : ns \in 1..3, ni \in 1..3, np \in 1..3, rag \in {0, 1}} ELSE {})
+  \* wide shapes: many entries at ONE level of the nesting (8 / 9 / 17 / 33: around the sizes at which an implementation that
+  \* batches, pre-sizes or switches representation changes its path)
+  \cup {<< "cmd", 8, 1, 1, 1, 0 >>, << "cmd", 9, 1, 1, 1, 0 >>, << "cmd", 17, 1, 0, 1, 0 >>,
+        << "cmd", 1, 8, 1, 1, 0 >>, << "cmd", 1, 9, 1, 1, 0 >>, << "cmd", 1, 17, 1, 1, 0 >>, << "cmd", 1, 33, 0, 1, 0 >>,
+        << "cmd", 1, 1, 8, 1, 0 >>, << "cmd", 1, 1, 9, 1, 0 >>, << "cmd", 1, 1, 17, 1, 0 >>, << "cmd", 2, 9, 2, 1, 0 >>}
+  \cup (IF Thorough THEN {<< "cmd", 33, 1, 1, 1, 0 >>, << "cmd", 1, 65, 1, 1, 0 >>, << "cmd", 1, 1, 33, 1, 0 >>, << "cmd", 3, 17, 3, 1, 0 >>} ELSE {})
 \* degenerate shapes (no sublist: the inner counts do not matter) are kept once
 Canon(x) == IF x[1] = "cmd" /\ x[2] = 0 /\ x[6] = 0 THEN << "cmd", 0, 0, 0, 0, 0 >>
             ELSE IF x[1] = "cmd" /\ x[3] = 0 /\ x[6] = 0 THEN << "cmd", x[2], 0, 0, 0, 0 >>
@@ -129,6 +135,8 @@ Canon(x) == IF x[1] = "cmd" /\ x[2] = 0 /\ x[6] = 0 THEN << "cmd", 0, 0, 0, 0, 0
 Descs ==
   {Canon(x) : x \in CmdShapes}
   \cup {<< "rej", ns, nr, 0, 0, rag >> : ns \in N03, nr \in N03, rag \in {0, 1}}
+  \cup {<< "rej", 8, 1, 0, 0, 0 >>, << "rej", 9, 1, 0, 0, 0 >>, << "rej", 17, 2, 0, 0, 0 >>,
+        << "rej", 1, 8, 0, 0, 0 >>, << "rej", 1, 9, 0, 0, 0 >>, << "rej", 1, 17, 0, 0, 0 >>, << "rej", 2, 33, 0, 0, 0 >>}
   \cup {<< "cpl", 0, 0, 0, 0, 0 >>}
   \cup {<< "unk", t, 0, 0, 0, 0 >> : t \in {0, 4, 5, 6, 7, 128, 255}}
   \cup {<< "plmn", w, 0, mcc, 0, 0 >> : w \in {0, 1}, mcc \in 100..999}
@@ -136,9 +144,9 @@ Descs ==
   \cup {<< "plmn", w, 1, mnc, 0, 0 >> : w \in {0, 1}, mnc \in 9..1000}
 
 CaseOf(x) ==
-  CASE x[1] = "cmd" -> CmdCase(St(16 * x[2] + x[3] + 1, 1, 200 + x[4], MkSubs(x[2], x[3], x[4], x[5], x[6]), << >>,
+  CASE x[1] = "cmd" -> CmdCase(St((16 * x[2] + x[3] + 1) % 256, 1, (200 + x[4]) % 256, MkSubs(x[2], x[3], x[4], x[5], x[6]), << >>,
                                   IF x[6] = 1 \/ (x[2] + x[3]) % 2 = 1 THEN << 66, x[4] % 2 >> ELSE << >>))
-    [] x[1] = "rej" -> RejCase(St(32 + x[2], 3, 100 + x[3], << >>, MkSrs(x[2], x[3], x[6]), << >>))
+    [] x[1] = "rej" -> RejCase(St(32 + x[2], 3, (100 + x[3]) % 256, << >>, MkSrs(x[2], x[3], x[6]), << >>))
     [] x[1] = "cpl" -> [k |-> "build", st |-> St(7, 2, 0, << >>, << >>, << >>),
                         jobs |-> << Job(<< "DecodeMsg" >>, << 7, 2, 1, 0, 3 >>, TRUE, {}) >>]
     [] x[1] = "unk" -> OtherCase(3, x[2])
@@ -148,4 +156,6 @@ Init == d \in Descs
 Next == UNCHANGED d
 Spec == Init /\ [][Next]_d
 Emit == PrintT(ToJson(CaseOf(d)))
+\* the generated values are values the API can be given (a descriptor that leaves an octet's range is the generator's error)
+GenSane == LET cs == CaseOf(d) IN cs.k = "build" => (cs.st.pti \in 0..255 /\ cs.st.type \in 0..255 /\ cs.st.iei \in 0..255)
 =============================================================================
